@@ -297,6 +297,10 @@ func fetchType(typ reflect.Type, typMap map[string]reflect.Type, walked map[refl
 	}
 
 	typMap[typ.Name()] = typ
+	// the wire name of a type that declares one, as ExtractTypeNameMap registers it
+	if n, ok := reflect.Zero(typ).Interface().(CodecNamable); ok {
+		typMap[n.HessianCodecName()] = typ
+	}
 	for i := 0; i < typ.NumField(); i++ {
 		fetchType(typ.Field(i).Type, typMap, walked)
 	}
